@@ -6,7 +6,7 @@
    never consulted before it, so the theorems hold for any primitive, even one that accepts everything. *)
 From Coq Require Import String.
 From Coq Require Import ZArith List Bool.
-From Cose Require Import Lib.Base Lib.GenTypes Model.GoVal Model.Key Model.MsgLogic Model.MsgLogicProofs Lib.GoSem Model.HdrSem Gen.SlicesGen Model.SlicesProofs Model.Wire Model.Msg Model.MsgObj Model.MsgObjProofs Model.MsgObjExample.
+From Cose Require Import Lib.Base Lib.GenTypes Model.GoVal Model.Key Model.MsgLogic Model.MsgLogicProofs Lib.GoSem Model.HdrSem Gen.SlicesGen Model.SlicesProofs Model.Wire Model.Msg Model.MsgObj Model.MsgObjProofs Model.MsgObjExample Gen.LookupGen Model.LookupProofs.
 Import ListNotations.
 Open Scope Z_scope.
 
@@ -116,3 +116,26 @@ Theorem C05_history_example : single KMac0 = true /\ Forall (op_wf KMac0) ex_ops
   /\ exists b, marshal_out KMac0 (final KMac0 fresh ex_ops) = RBytes b.
 Proof. exact ex_history_is_covered. Qed.
 Print Assumptions C05_history_example.
+
+(* ---- the source of COSE_Sign verification (SignMessage.Verify, regenerated statement by statement on every run,
+   Gen/LookupGen.v): it accepts only if every signature found a verifier by its own kid and its OWN protected bucket
+   passed the algorithm gate of that verifier's key; the body's buckets have no say (an algorithm named in the body of a
+   COSE_Sign binds nothing and overrides nothing: only the body protected BYTES and the payload enter, through the
+   Sig_structure) *)
+Theorem C05_sign_verify_source_gates_every_signature : forall vs ext w sigs,
+  cose_SignMessage_Verify vs ext w (Some sigs) = Ok tt -> sigs <> [] /\ Forall (sig_gated vs) sigs.
+Proof. exact gen_sign_verify_gates. Qed.
+Print Assumptions C05_sign_verify_source_gates_every_signature.
+
+Theorem C05_sign_verify_source_ignores_the_body_buckets : forall vs ext w w' sigs,
+  w_prot w = w_prot w' -> w_payload w = w_payload w' ->
+  cose_SignMessage_Verify vs ext w sigs = cose_SignMessage_Verify vs ext w' sigs.
+Proof. exact gen_sign_verify_body_irrelevant. Qed.
+Print Assumptions C05_sign_verify_source_ignores_the_body_buckets.
+
+(* the per-signer buckets COSE_Sign production records are the key's own algorithm and kid (source of the loop of
+   SignMessage.WithSign, translator T16) *)
+Theorem C05_with_sign_loop_source_records_key_alg : forall ps ext pb payload,
+  cose_SignMessage_WithSign_loop ps ext pb payload = sign_entries ps pb ext payload.
+Proof. exact gen_with_sign_loop. Qed.
+Print Assumptions C05_with_sign_loop_source_records_key_alg.
